@@ -42,6 +42,7 @@ Definition chk_op (name : string) (args : list (string * pv)) (exs : list (reque
     match rest with [] => true | _ => false end &&
     match out, expected with
     | Ok v, Ok w => pv_sim v w
+    | Err (OtherError _), Err (OtherError _) => true      (* "an unrelated Python exception": the kind is not observed *)
     | Err e, Err f => err_eqb e f
     | _, _ => false
     end
